@@ -1,0 +1,30 @@
+//go:build verif
+
+package cache
+
+import (
+	"os"
+	"strconv"
+)
+
+// SetWorkerLimits overrides the sizes of the shared and dedicated worker
+// pools. It exists only in builds with the "verif" tag and is used by the
+// verification harness to explore pool sizes the defaults never reach.
+func SetWorkerLimits(shared, dedicated int) {
+	maxSharedWorkers = shared
+	maxDedicatedWorkers = dedicated
+}
+
+// WorkerLimits reports the current pool sizes.
+func WorkerLimits() (shared, dedicated int) {
+	return maxSharedWorkers, maxDedicatedWorkers
+}
+
+func init() {
+	if v, err := strconv.Atoi(os.Getenv("DUD_VERIF_SHARED")); err == nil {
+		maxSharedWorkers = v
+	}
+	if v, err := strconv.Atoi(os.Getenv("DUD_VERIF_DEDICATED")); err == nil {
+		maxDedicatedWorkers = v
+	}
+}
